@@ -413,6 +413,8 @@ def random_case(rng, maxlen=60):
             "ctor": rng.choice(["pos", "kw"]), "mingap_by": rng.choice(["ctor", "setter"])}
     if mode in ("section", "quiet"):
         case["via"] = "output"
+    if mode == "section" and fmt != "two" and rng.random() < 0.5:
+        cfg["w"] = rng.choice([20, 24, 31, 40, 45])  # the section folds the frame; COLUMNS is what the section sees
     family = PLAIN_FAMILY if fmt in PLAIN_FAMILY else VERBOSE_FAMILY if fmt in VERBOSE_FAMILY else []
     has_max = max0 > 0
     for _ in range(rng.randint(2, maxlen)):
@@ -465,6 +467,17 @@ def sweep_case(mx, mode):
            "pre": [list("##")], "max0": mx}
     ops = [{"op": "start", "arg": -1, "dt": 0}] + [{"op": "set", "arg": n, "dt": 1} for n in range(1, mx + 1)]
     return {"cfg": cfg, "ops": ops + [{"op": "finish", "arg": 0, "dt": 0}], "msg0": "m", "via": "output"}
+
+
+def fit_case(w, n, mode="section"):
+    """a bar in an ANSI section whose frames are n + 18 cells long on a terminal of width w: with n chosen so that the
+    frame is exactly 1x / 2x the width (and one cell less / more), below a line printed before the bar"""
+    cfg = {"mode": mode, "bw": 4, "mingap": 0, "maxgap": 1024, "freq": 1, "fmt": "msg", "chars": DEFAULT_CHARS, "w": w,
+           "pre": [list("##")], "max0": 10}
+    ops = [{"op": "start", "arg": -1, "dt": 0}] + [{"op": "advance", "arg": k, "dt": 205} for k in (1, 2, 1)]
+    ops += [{"op": "display", "arg": 0, "dt": 0}, {"op": "clear", "arg": 0, "dt": 0}, {"op": "advance", "arg": 3, "dt": 51},
+            {"op": "msg", "arg": 0, "dt": 0, "text": "y" * n}, {"op": "advance", "arg": 1, "dt": 51}, {"op": "finish", "arg": 0, "dt": 0}]
+    return {"cfg": cfg, "ops": ops, "msg0": "x" * n, "via": "output"}
 
 
 # ------------------------------------------------------------------------------------------------ the check
@@ -556,6 +569,15 @@ def run(ctx):
             cases.append(case)
             ctx.count()
             ctx.nontriv(("sweep", mx, mode))
+    for w in (20, 23):  # frames of w-1, w, w+1, 2w-1, 2w, 2w+1 cells in an ANSI section of width w
+        for n in (w - 19, w - 18, w - 17, 2 * w - 19, 2 * w - 18, 2 * w - 17):
+            case = fit_case(w, n)
+            tr = run_case(case)
+            check_known(tr, case["cfg"])
+            traces.append(tr)
+            cases.append(case)
+            ctx.count()
+            ctx.nontriv(("fit", w, n))
     for t in range(500 if quick else 5000):
         case = random_case(ctx.rng)
         tr = run_case(case)
